@@ -167,6 +167,8 @@ def gen_knobs(rk, cls):
         'gc_eager': rk.random() < 0.3,
         'pristine_p': rk.choice([0.0, 0.1, 0.1, 0.3]),
     }
+    if cls in ('norecycle', 'recycle') and rk.random() < 0.35:
+        kn['lru'] = 'unbounded'      # the cache class's other shipped mode (maxsize=None), re-created from the shipped memo
     kn['hpair'] = None
     if kn['mix'] == 'handler' or rk.random() < 0.25:
         kn['hpair'] = rk.choice([['dbl_int', 'inc_int'], ['inc_int', 'dbl_int'], ['upper_str', 'tag_str'], ['tag_str', 'upper_str']])
@@ -834,7 +836,7 @@ class Exec:
             self.alloc.calibrate()
         self.seams.install_id(self.alloc.sim_id)
         if self.knobs.get('lru'):
-            self.lru = self.seams.make_lru(self.knobs['lru'])
+            self.lru = self.seams.make_lru(None if self.knobs['lru'] == 'unbounded' else self.knobs['lru'])
             if self.lru is None:
                 self.count('lru_mode_unavailable')
             else:
@@ -1605,7 +1607,7 @@ def gen_plan_threads(seed: int, wide=False) -> dict:
     knobs = {
         'target': target,
         'nthreads': rk.choice([2, 2, 3, 4]) if not wide else rk.choice([4, 5, 6, 8]),
-        'maxsize': rk.choice([1, 1, 2, 2, 3, 4]) if target == 'keycache' else rk.choice([None, 1, 2, 3, 4, 8]),
+        'maxsize': rk.choice([None, 1, 1, 2, 2, 3, 4]) if target == 'keycache' else rk.choice([None, None, 'shipped', 1, 2, 3, 4, 8]),
         'switch_p': rk.choice([0.05, 0.15, 0.3, 0.5, 0.8]),
         'p_recycle': rk.choice([0.0, 1.0]),
         'keyspace': rk.choice([2, 3, 4, 6]),
@@ -1806,7 +1808,7 @@ def execute_threads(plan, want_trace=False) -> dict:
                     raise
                 except Exception:
                     count('setup_failed')
-            if knobs['maxsize'] is not None:
+            if knobs['maxsize'] != 'shipped':
                 util.__dict__['RLock'] = sched.make_lock     # locks created while the memo is re-created are simulated
                 util.__dict__['Lock'] = sched.make_lock
                 try:
